@@ -2594,6 +2594,14 @@ client_handshake(int dns_fd, int raw_mode, int autodetect_frag_size, int fragsiz
 
 		if (downenc == ' ') {
 			downenc = handshake_downenc_autodetect(dns_fd);
+		} else if (downenc != 'T' &&
+			   do_qtype != T_NULL && do_qtype != T_PRIVATE &&
+			   !handshake_downenctest(dns_fd, downenc) && running) {
+			/* A codec given with -O is put to the same test as an
+			   autodetected one. The server's confirmation of the
+			   switch proves nothing: "Raw" in Raw is plain ASCII. */
+			fprintf(stderr, "Downstream codec given with -O does not work on this path, using Base32\n");
+			downenc = 'T';
 		}
 		if (!running)
 			return -1;
@@ -2616,6 +2624,19 @@ client_handshake(int dns_fd, int raw_mode, int autodetect_frag_size, int fragsiz
 
 		if (autodetect_frag_size) {
 			fragsize = handshake_autoprobe_fragsize(dns_fd);
+			if (!fragsize && running && downenc != ' ' && downenc != 'T') {
+				/* Answers of the right length came back damaged:
+				   the codec does not survive this path after all
+				   (the check pattern has no '+', Raw needs it). */
+				downenc = 'T';
+				if (handshake_switch_downenc(dns_fd, 1)) {
+					warnx("couldn't agree on a downstream codec with the server");
+					return 1;
+				}
+				if (!running)
+					return -1;
+				fragsize = handshake_autoprobe_fragsize(dns_fd);
+			}
 			if (!fragsize) {
 				return 1;
 			}
